@@ -255,6 +255,7 @@ def do_generate(prog, scenario):
 
 
 def do_simulate(prog, scene, fault=None):
+    seeded(11)  # run-time random choices (do choose, ...) must be the same in every run
     return dyn.simulate(scene, tables=prog["tables"], default=True, maxSteps=prog["maxSteps"], timestep=1, fault=fault)
 
 
